@@ -228,7 +228,10 @@ impl World {
     fn make_node(cfg: &WorldCfg, name: &str) -> RealNode {
         let cb = Arc::new(AtomicUsize::new(0));
         let cb2 = cb.clone();
-        let pred = cfg.pred.clone();
+        // the predicate compares with the realised value when model values stand for big strings
+        let pred = cfg.pred.clone().map(|(k, v)| {
+            if cfg.val_size > 0 && !v.is_empty() { (k, big_value(&v, cfg.val_size)) } else { (k, v) }
+        });
         let config = ChitchatConfig {
             chitchat_id: cid(name),
             cluster_id: cfg.clusters.get(name).cloned().unwrap_or_else(|| "c".to_string()),
